@@ -146,7 +146,18 @@ func (ps *psPacker) pts(track int, ts uint64) uint64 {
 	return uint64(ps.p.TsStart[0]) + ts*90000/uint64(ps.p.clock(track))
 }
 
-func (ps *psPacker) video(nals [][]byte, ts uint64, key, first bool) []rtpc.Packet {
+// audioPes is the PES of one audio frame (to be put into its own pack or behind the video PES of a pack).
+func (ps *psPacker) audioPes(frame []byte, ts uint64) []byte {
+	body := frame
+	if ps.p.Audio == "aac" {
+		body = makeAdts(frame, ps.p.AacSrIdx, 2)
+	}
+	return ps.pes(0xc0, body, ps.pts(1, ts))
+}
+
+// video packs one video frame; extra (may be nil) is appended to the same pack (devices put the audio that
+// belongs to a picture behind it in one pack).
+func (ps *psPacker) video(nals [][]byte, ts uint64, key, first bool, extra []byte) []rtpc.Packet {
 	pack := ps.packHeader()
 	if key || first || ps.p.Ps.PsmAll {
 		pack = append(pack, ps.sysAndPsm()...)
@@ -172,6 +183,18 @@ func (ps *psPacker) video(nals [][]byte, ts uint64, key, first bool) []rtpc.Pack
 	}
 	pts := ps.pts(0, ts)
 	pack = append(pack, ps.pes(0xe0, es, pts)...)
+	pack = append(pack, extra...)
+	return ps.rtp(pack, pts)
+}
+
+// audioRaw packs an audio PES whose payload is given as is (several ADTS frames, for instance).
+func (ps *psPacker) audioRaw(body []byte, ts uint64, first bool) []rtpc.Packet {
+	pack := ps.packHeader()
+	if first || ps.p.Ps.PsmAll {
+		pack = append(pack, ps.sysAndPsm()...)
+	}
+	pts := ps.pts(1, ts)
+	pack = append(pack, ps.pes(0xc0, body, pts)...)
 	return ps.rtp(pack, pts)
 }
 
